@@ -284,6 +284,15 @@ def _length_sweep(tier, rng):
             payload = (bytes([1]) * avail) if ct == 20 else bytes(rng.randrange(256) for _ in range(avail))
             for e in ("parse_tls_raw_record", "parse_tls_encrypted", "parse_tls_plaintext"):
                 out.append(Case("%s %s" % (e, (bytes([ct, v >> 8, v & 255, L >> 8, L & 255]) + payload).hex()), "(err TooLarge @5+%d)" % avail, "lengths"))
+    # buffers beyond 64 KiB behind a short record: the bytes available are not a 16-bit quantity
+    for L in (1, 1000, CAP):
+        for avail in (65535, 65536, 65537, 65546, 131072 + 7):
+            pl = bytes((k * 7 + 3) & 255 for k in range(avail))
+            for e, nm in (("parse_tls_raw_record", "Raw"), ("parse_tls_encrypted", "Encrypted")):
+                out.append(Case("%s %s" % (e, (bytes([23, 3, 3, L >> 8, L & 255]) + pl).hex()),
+                                "(ok @%d+%d (%s (Hdr 23 771 %d) #5:%s))" % (5 + L, avail - L, nm, L, pl[:L].hex()), "lengths"))
+            out.append(Case("parse_tls_plaintext %s" % (bytes([23, 3, 3, L >> 8, L & 255]) + pl).hex(),
+                            "(ok @%d+%d (Plaintext (Hdr 23 771 %d) [(ApplicationData #5:%s)]))" % (5 + L, avail - L, L, pl[:L].hex()), "lengths"))
     # at the cap, whole payload present: framed
     for e, nm in (("parse_tls_raw_record", "Raw"), ("parse_tls_encrypted", "Encrypted")):
         for L in (CAP - 1, CAP):
@@ -518,14 +527,16 @@ def derive_cases(pid, cases, tier, rng):
                 l = "%s %s" % (e, ext(t, d))
                 if l not in seen: seen.add(l); out.append(Case(l, "", "paired"))
         return out
-    if pid != "C06": return []
+    if pid not in ("C06", "C04", "C10", "C13", "C14"): return []
     out = []
     for c in cases:
         e, a, hx = split_line(c.line)
         if e not in SELF_DELIM or hx == "-" or len(hx) > 6000: continue
         b = bytes.fromhex(hx)
-        sufs = [bytes(rng.randrange(256) for _ in range(rng.randrange(1, 9))), b[:64], b"\x00"]
-        if tier == "quick": sufs = [sufs[rng.randrange(3)], sufs[(len(hx) + sum(b[:4])) % 3]]
+        # random bytes; a copy of the structure itself; one zero byte; bytes that read as an empty length-prefixed
+        # block / an empty handshake message / a plausible following record header
+        sufs = [bytes(rng.randrange(256) for _ in range(rng.randrange(1, 9))), b[:64], b"\x00", b"\x00\x00\x00\x00", b"\x00\x01\xaa", b"\x16\x03\x03\x00\x00"]
+        if tier == "quick": sufs = [sufs[rng.randrange(6)], sufs[(len(hx) + sum(b[:4])) % 6], sufs[3]]
         for x in sufs:
             if not x: continue
             out.append(Case(" ".join([e] + a + [(b + x).hex()]), "append:%d:%s" % (len(x), c.line), "append"))
@@ -702,7 +713,7 @@ def post_oracle(pid, cases, outs):
         binp = vlib.harness_paths("default")[2]
         return _chain_oracle(cases, outs, binp, "tls_parser_many", "parse_tls_plaintext") + \
                _chain_oracle(cases, outs, binp, "parse_dtls_plaintext_records", "parse_dtls_plaintext_record")
-    if pid == "C06": return _append_oracle(cases, outs)
+    if pid in ("C06", "C04", "C10", "C13", "C14"): return _append_oracle(cases, outs)
     if pid == "C05":
         import vlib
         by_line = {c.line: o for c, o in zip(cases, outs)}
@@ -937,6 +948,16 @@ def _dtls_extremes(rng, many=False):
             # truncated by one byte: Incomplete with the exact count
             out.append(Case("parse_dtls_plaintext_record %s" % (hdr(22, L) + msg[:-1]).hex(), "(inc 1)", "extreme"))
             out.append(Case("parse_dtls_plaintext_record %s" % hdr(22, L).hex(), "(inc %d)" % L, "extreme"))
+        for bl in (16628, 16629, 16640, 16641, 20015, 65535, 70000):
+            body = bytes(rng.randrange(256) for _ in range(bl))
+            msg = bytes([16]) + bl.to_bytes(3, "big") + b"\x00\x05" + b"\x00\x00\x00" + bl.to_bytes(3, "big") + body
+            out.append(Case("parse_dtls_message_handshake %s" % (msg + b"\x99").hex(),
+                            "(ok @%d+1 (Handshake 16 %d 5 0 %d (ClientKeyExchange (Unknown #12:%s)) not_fragment))" % (12 + bl, bl, bl, body.hex()), "extreme"))
+            out.append(Case("parse_dtls_message_handshake %s" % msg[:-3].hex(), "(inc 3)", "extreme"))
+            half = bl // 2
+            frag = bytes([11]) + bl.to_bytes(3, "big") + b"\x00\x06" + (7).to_bytes(3, "big") + half.to_bytes(3, "big") + body[:half]
+            out.append(Case("parse_dtls_message_handshake %s" % frag.hex(),
+                            "(ok @_+0 (Handshake 11 %d 6 7 %d (Fragment #12:%s) is_fragment))" % (bl, half, body[:half].hex()), "extreme"))
         for L in (CAP + 1, CAP + 2, 32768, 65535):
             for extra in (0, 1, L, L + 3):
                 out.append(Case("parse_dtls_plaintext_record %s" % (hdr(rng.choice([20, 21, 22, 23]), L) + bytes(extra)).hex(), "(err TooLarge @13+%d)" % extra, "extreme"))
@@ -948,6 +969,37 @@ def _dtls_extremes(rng, many=False):
             for tail in (b"", hdr(22, 9)):
                 out.append(Case("parse_dtls_plaintext_records %s" % (unit * n + tail).hex(),
                                 "(ok %s [%s])" % ("@_+0" if not tail else "@%d+%d" % (len(unit) * n, len(tail)), " ".join([one] * n)), "extreme"))
+    return out
+
+def _sct_cases(rng):
+    """SCT lists built in the check with the expectation written out: repeated entries (identical, or equal log id and
+    timestamp with another signature), minimal and maximal entries, many entries"""
+    from vlib import Case
+    out = []
+    def sct(ver, logid, ts, ext, h, s_, sig):
+        c = bytes([ver]) + logid + ts.to_bytes(8, "big") + len(ext).to_bytes(2, "big") + ext + bytes([h, s_]) + len(sig).to_bytes(2, "big") + sig
+        return len(c).to_bytes(2, "big") + c
+    def show(off, ver, logid, ts, ext, h, s_, sig):
+        p = off + 2
+        e_off = p + 1 + 32 + 8 + 2; s_off = e_off + len(ext) + 4
+        return "(SCT %d #%d:%s %d %s (Signed (Some ( %d %d)) %s))" % (ver, p + 1, logid.hex(), ts, ("#%d:%s" % (e_off, ext.hex())) if ext else "#_:", h, s_,
+                                                                   ("#%d:%s" % (s_off, sig.hex())) if sig else "#_:")
+    def lst(entries, tail=b""):
+        body = b"".join(sct(*e) for e in entries)
+        off, items = 2, []
+        for e in entries:
+            items.append(show(off, *e)); off += len(sct(*e))
+        inp = len(body).to_bytes(2, "big") + body + tail
+        out.append(Case("parse_ct_signed_certificate_timestamp_list %s" % inp.hex(),
+                        "(ok %s [%s])" % ("@_+0" if not tail else "@%d+%d" % (2 + len(body), len(tail)), " ".join(items)), "sctlists"))
+    A = (0, bytes(range(32)), 1234567890123, b"", 4, 3, b"\x30\x45")
+    A2 = (0, bytes(range(32)), 1234567890123, b"\x01", 8, 4, b"\xaa\xbb\xcc")      # same log id and timestamp, another signature
+    B = (0, bytes(range(1, 33)), 1234567890123, b"", 4, 3, b"")
+    M = (255, b"\xff" * 32, (1 << 64) - 1, b"", 255, 255, b"")
+    for entries in ([A, A], [A, A, A], [A, A2], [A2, A, B], [B, A, A, B], [A, B, A], [M], [M, M], [A] * 40, [B, A2] * 20):
+        lst(entries); lst(entries, b"\x00\x00")
+    big = (1, bytes(32), 7, bytes(1000), 4, 3, bytes(2000))
+    lst([big] * 20); lst([A, big, A])
     return out
 
 def _kx_sweeps(tier, rng):
@@ -1278,6 +1330,8 @@ def extra_cases(pid, tier, seed, rng):
     if pid == "C09": return _ser_cases(tier, rng)
     if pid == "C05": return _ext_type_sweep(tier, rng)
     if pid == "C13": return _kx_sweeps(tier, rng)
+    if pid == "C06": return [c for c in _kx_sweeps(tier, rng) if "(err Switch" in c.expect] + _sct_cases(rng)
+    if pid == "C14": return _sct_cases(rng)
     if pid == "C11": return _enum_sweeps(tier, rng)
     if pid == "C07": return _defrag_histories(tier, seed, rng)
     if pid == "C02": return _length_sweep(tier, rng) + [c for c in _record_extremes(rng, entries=("parse_tls_plaintext",)) if c.origin == "extreme"]
